@@ -216,6 +216,21 @@ func verifQuiesce() int {
 
 // verifCtx natively: event indices cannot be reproduced on the real scheduler; 0 is an already cancelled context,
 // other indices cancel after a proportional delay (the assertions that use it hold for every instant).
+// verifCtxDeadline natively: a context with a timeout (0: a deadline that has passed already)
+func verifCtxDeadline(k uint) context.Context {
+	switch {
+	case k == 0:
+		ctx, cancel := context.WithDeadline(context.Background(), time.Now().Add(-time.Second))
+		_ = cancel
+		return ctx
+	case k < 100000:
+		ctx, cancel := context.WithTimeout(context.Background(), time.Duration(k)*5*time.Microsecond)
+		_ = cancel
+		return ctx
+	}
+	return context.Background()
+}
+
 func verifCtx(k uint) context.Context {
 	ctx, cancel := context.WithCancel(context.Background())
 	switch {
